@@ -618,6 +618,8 @@ def _scale_family(ctx):
 
 
 def run(ctx):
+    from harness import growth
+    growth.safe(ctx, growth.clustering_steps)
     ctx.rule = ("G: every strictly increasing integer layout in 0..G with 2..NMax points x every t = j/d x 4 linkages, "
                 "generated by TLC from Clustering.tla (checked there against the declarative NewCluster rule) and replayed "
                 "into clustering.* on the layout and on an exact affine image of it; T: random float layouts (uniform, "
